@@ -42,3 +42,9 @@ Print Assumptions C25_status_redis_workload_partial.
 Theorem C25_status_etcd_node_expires : C25_etcd_node_expires_stmt.
 Proof. exact C25_etcd_node_expires_holds. Qed.
 Print Assumptions C25_status_etcd_node_expires.
+
+(* the status record of C25_status_etcd_workload is what GetWorkloadStatus shows
+   when the workload record carries the names the status was reported under *)
+Theorem C25_workload_status_api : workload_status_api_stmt.
+Proof. exact workload_status_api_holds. Qed.
+Print Assumptions C25_workload_status_api.
